@@ -60,7 +60,7 @@ def make_scratch(repo, dest):
     open(os.path.join(dest, '.cargo', 'config.toml'), 'w').write('[net]\noffline = true\n')
 
 
-def run_tests(tests, repo='/repo', tier='quick', seed=0, timeout=3600):
+def run_tests(tests, repo='/repo', tier='quick', seed=0, timeout=1500):
     """tests: list of 'file::testname' (file = integration test file stem). Returns {test: dict(status, stats, cex, time_s, output_tail)}"""
     os.makedirs(os.path.join(CACHE, 'native'), exist_ok=True)
     key = tree_hash(repo) + '-%s-%d' % (tier, seed)
@@ -95,11 +95,21 @@ def run_tests(tests, repo='/repo', tier='quick', seed=0, timeout=3600):
                     cmd = ['cargo', 'test', '--offline'] + ([] if dev else ['--release']) + ['--features', FEATURES, '--test', fstem, '--',
                            '--exact', tname, '--nocapture', '--test-threads', '1']
                     t0 = time.time()
+                    # own process group, so that a test binary that never returns is killed together with cargo
+                    pr = subprocess.Popen(cmd, cwd=scratch, env=env, stdout=subprocess.PIPE, stderr=subprocess.PIPE, text=True, start_new_session=True)
                     try:
-                        p = subprocess.run(cmd, cwd=scratch, env=env, capture_output=True, text=True, timeout=timeout)
-                        out, rc = p.stdout + '\n' + p.stderr, p.returncode
-                    except subprocess.TimeoutExpired as e:
-                        out, rc = 'TIMEOUT', -9
+                        o, e2 = pr.communicate(timeout=timeout)
+                        out, rc = o + '\n' + e2, pr.returncode
+                    except subprocess.TimeoutExpired:
+                        try:
+                            os.killpg(pr.pid, 9)
+                        except Exception:
+                            pass
+                        try:
+                            o, e2 = pr.communicate(timeout=30)
+                        except Exception:
+                            o, e2 = '', ''
+                        out, rc = (o or '') + '\n' + (e2 or '') + '\nTIMEOUT after %d s' % timeout, -9
                     dt = time.time() - t0
                     stats = {}
                     for mm in re.finditer(r'^VERIF-STAT (\w+)=(.*)$', out, re.M):
@@ -110,10 +120,18 @@ def run_tests(tests, repo='/repo', tier='quick', seed=0, timeout=3600):
                             pass
                         stats[mm.group(1)] = v
                     cex = [mm.group(1) for mm in re.finditer(r'^VERIF-CEX (.*)$', out, re.M)]
+                    # the test process died from a signal other than an external kill (stack overflow -> SIGABRT, wild access ->
+                    # SIGSEGV / SIGBUS, illegal instruction): a crash of the library under a stand-in that passes on the pinned
+                    # tree. SIGKILL (9) is what an out-of-memory killer or a timeout sends: that stays undecided.
+                    died = re.search(r'\(signal: (\d+), ([A-Z]+)[^)]*\)', out)
+                    crashed = bool(died) and died.group(1) != '9'
+                    if crashed:
+                        so = 'stack overflow' if 'overflowed its stack' in out else died.group(2)
+                        cex.append('%s: the test process was killed by signal %s (%s) while running %s -- no Rust panic, the library crashed the process' % (tname.split('_')[0].upper(), died.group(1), so, tname))
                     ran = re.search(r'test result: (\w+)\. (\d+) passed; (\d+) failed', out)
                     if rc == 0 and ran and int(ran.group(2)) == 1:
                         status = 'success'
-                    elif ran and int(ran.group(3)) >= 1:
+                    elif (ran and int(ran.group(3)) >= 1) or crashed:
                         status = 'failed'
                     elif rc == -9:
                         status = 'timeout'
